@@ -236,15 +236,23 @@ def cases(draw: Any, prop: str, tier: str) -> dict:
             next_sid += 1
         elif kind in ("dispatch", "burst"):
             n = 1 if kind == "dispatch" else d.int(2, 6)
+            long_burst = kind == "burst" and d.pct(8)
+            one_chan = None
+            if long_burst:
+                # a long burst without a single checkpoint, on one channel: every event but the last fails
+                # every filter in use (k=5), the last passes them all (k=0)
+                n = d.pick([18, 24, 40, 52, 60])
+                one_chan = d.pick(chans)
             for bi in range(n):
-                c = d.pick(chans)
+                c = one_chan or d.pick(chans)
                 sub = d.pct(25)  # dispatch an instance of a subclass of the declared event class
-                ops.append({"op": "dispatch", "ch": list(c), "k": payload % 7, "sub": sub})
+                kval = payload % 7 if not long_burst else (0 if bi == n - 1 else 5)
+                ops.append({"op": "dispatch", "ch": list(c), "k": kval, "sub": sub})
                 if kind == "burst" and bi < n - 1:
                     ops[-1]["nocp"] = True  # the next dispatch follows without a checkpoint in between
                 for s in live:
                     if c in s.chans and len(s.fifo) < s.maxq:
-                        s.fifo.append((0, payload % 7))
+                        s.fifo.append((0, kval))
                 payload += 1
         elif kind == "consume":
             s = d.pick(live)
@@ -311,6 +319,19 @@ def cases(draw: Any, prop: str, tier: str) -> dict:
                     cs.append(c)
             ops.append({"op": "wait", "chans": [list(c) for c in cs], "filter": d.pick(["none", "even", "lt3"]),
                         "api": "method" if len(cs) == 1 and d.bool() else "func", "cp": d.int(1, 4)})
+            if ops[-1]["filter"] != "none" and d.pct(20):
+                # the waiter is at once followed by a long burst on one of its channels in which only the LAST event
+                # passes its filter: "the first event passing its filter that is dispatched after the call begins"
+                n = d.pick([18, 40, 52, 60])
+                c = cs[0]
+                ops[-1]["cp"] = 4
+                for bi in range(n):
+                    kval = 0 if bi == n - 1 else 5
+                    ops.append({"op": "dispatch", "ch": list(c), "k": kval, "sub": False, **({"nocp": True} if bi < n - 1 else {})})
+                    for s in live:
+                        if c in s.chans and len(s.fifo) < s.maxq:
+                            s.fifo.append((0, kval))
+                    payload += 1
     case["ops"] = ops
     return case
 
@@ -712,7 +733,13 @@ class SeqInterp:
                     await checkpoints(op.get("cp", 4))  # let it run up to (or only into) its wait
                     self.trace.append(["wait", [list(c) for c in cs], op["filter"]])
             # ---- end of history: waiters, streams ---------------------------------------
+            # (a waiter that must skip n buffered events needs about n scheduling rounds: settle until
+            # every waiter that has something to return has returned, within a generous bound)
             await checkpoints(4)
+            for _ in range(400):
+                if all(wt["done"] or wt["expect"] is None for wt in waiters):
+                    break
+                await checkpoints(1)
             for wt in waiters:
                 if self.diverged:
                     break
